@@ -31,6 +31,8 @@ def run(p):
         args.append("--no-demo")
     r = subprocess.run(args, capture_output=True, text=True)
     out = {}
+    if "PATCH DOES NOT APPLY" in r.stdout:
+        out["patch"] = {"exit": -1, "first": "PATCH DOES NOT APPLY to the current /repo: port it"}
     for line in r.stdout.splitlines():
         m = re.match(r"(C\d\d) seed (\d+): exit (\d+) in [\d.]+s\s+(.*)", line)
         if m:
@@ -43,8 +45,14 @@ with ThreadPoolExecutor(max_workers=a.jobs) as ex:
     results = list(ex.map(run, items))
 matrix = {}
 for name, prop, out in results:
+    stale = "patch" in out
+    out.pop("patch", None)
     caught = sorted(c for c, v in out.items() if c != "demo" and v["exit"] == 1)
     incon = sorted(c for c, v in out.items() if c != "demo" and v["exit"] == 2)
     matrix[name] = {"property": prop, "caught_by": caught, "inconclusive": incon, "detail": out}
+    if stale:
+        print(f"{name:42s} {prop}  PATCH DOES NOT APPLY to the current tree")
+        matrix[name] = {"property": prop, "caught_by": [], "inconclusive": [], "stale_patch": True, "detail": {}}
+        continue
     print(f"{name:42s} {prop}  caught by: {','.join(caught) or '-'}{'   inconclusive: ' + ','.join(incon) if incon else ''}")
 json.dump(matrix, open(os.path.join(V, "seeded", "MATRIX.json"), "w"), indent=1, ensure_ascii=False)
